@@ -132,8 +132,9 @@ class S3Stub:
     # ---- fault injection
     def fail_at(self, k, mode="500", scope="mut"):
         """fail request number k (0-based, counted from now over mutating ('mut') or all ('all') requests)
-        once.  mode '500' answers HTTP 500 InternalError; 'drop' closes the connection without an answer.
-        The failed request has no effect on the bucket."""
+        once.  mode '500' answers HTTP 500 InternalError; 'drop' closes the connection without an answer;
+        in both cases the failed request has no effect on the bucket.  mode 'lost' applies the request
+        and then closes the connection (the answer is lost)."""
         with self.lock:
             base = self.n_mut if scope == "mut" else self.n_all
             self.faults.append({"kind": "count", "at": base + k, "scope": scope, "mode": mode})
@@ -277,6 +278,16 @@ class Handler(http.server.BaseHTTPRequestHandler):
             if fault == "500":
                 rec["status"] = 500
                 return self._err(500, "InternalError", "injected fault")
+            if fault == "lost":
+                # the request is applied but the answer never reaches the client
+                self.wfile = open(os.devnull, "wb")
+                rec["status"] = self._apply(st, kind, bucket, key, q, body, rec)
+                self.close_connection = True
+                try:
+                    self.connection.shutdown(socket.SHUT_RDWR)
+                except OSError:
+                    pass
+                return
             rec["status"] = self._apply(st, kind, bucket, key, q, body, rec)
 
     def _apply(self, st, kind, bucket, key, q, body, rec):
